@@ -477,10 +477,93 @@ theorem f64RoundInt_exact (i : Int) (h : i.natAbs ≤ two53) : f64RoundInt i = i
     have : n + 1 ≤ two53 := by simpa [Int.natAbs] using h
     simp [f64RoundInt, f64RoundNat, this, Int.negSucc_eq]
 
+theorem log2_ge_53 (n : Nat) (h : ¬ n ≤ 9007199254740992) : 53 ≤ Nat.log2 n := by
+  have hn : n ≠ 0 := by omega
+  rw [Nat.le_log2 hn]
+  have : (2:Nat) ^ 53 = 9007199254740992 := by decide
+  omega
+
+theorem nearestDoubleNat_eq (n : Nat) : nearestDoubleNat n = f64RoundNat n := by
+  unfold nearestDoubleNat f64RoundNat two53
+  split
+  · rfl
+  · rename_i h
+    have hk := log2_ge_53 n h
+    simp only [Nat.shiftRight_eq_div_pow, Nat.shiftLeft_eq]
+    have h2 : (2:Nat) ^ (Nat.log2 n - 52) = 2 * 2 ^ (Nat.log2 n - 52 - 1) := by
+      have : Nat.log2 n - 52 = (Nat.log2 n - 52 - 1) + 1 := by omega
+      conv => lhs; rw [this, Nat.pow_succ]
+      omega
+    generalize 2 ^ (Nat.log2 n - 52 - 1) = half at h2
+    generalize hd : 2 ^ (Nat.log2 n - 52) = d at h2
+    have hc : (d < 2 * (n % d) ∨ 2 * (n % d) = d ∧ n / d % 2 = 1) ↔ (n % d > half ∨ n % d = half ∧ n / d % 2 = 1) := by
+      constructor <;> intro hh <;> rcases hh with hh | ⟨h1, h3⟩ <;> first | (left; omega) | (right; exact ⟨by omega, h3⟩)
+    by_cases hx : (d < 2 * (n % d) ∨ 2 * (n % d) = d ∧ n / d % 2 = 1)
+    · rw [if_pos hx, if_pos (hc.mp hx)]
+    · rw [if_neg hx, if_neg (fun h => hx (hc.mpr h))]
+
+/-- half a unit in the last place a double keeps -/
+theorem nearestDoubleNat_close (n : Nat) :
+    2 * (nearestDoubleNat n - n) ≤ 2 ^ (Nat.log2 n - 52) ∧ 2 * (n - nearestDoubleNat n) ≤ 2 ^ (Nat.log2 n - 52) := by
+  unfold nearestDoubleNat
+  split
+  · simp
+  · dsimp only
+    generalize hd : 2 ^ (Nat.log2 n - 52) = d
+    have hdpos : 0 < d := by rw [← hd]; exact Nat.pow_pos (by decide)
+    have hdm := Nat.div_add_mod n d
+    have hlt := Nat.mod_lt n hdpos
+    have hmul : d * (n / d) = n / d * d := Nat.mul_comm _ _
+    have hsucc : (n / d + 1) * d = n / d * d + d := by rw [Nat.add_mul, Nat.one_mul]
+    rw [hsucc]
+    rw [hmul] at hdm
+    generalize n / d * d = Q at *
+    generalize n % d = r at *
+    split <;> omega
+
+theorem nearestDouble_eq (i : Int) : nearestDouble i = f64RoundInt i := by
+  cases i <;> simp [nearestDouble, f64RoundInt, nearestDoubleNat_eq]
+
+theorem nearestDoubleNat_pos (n : Nat) (hn : 0 < n) : 0 < nearestDoubleNat n := by
+  have h1 := (nearestDoubleNat_close n).2
+  by_cases hle : n ≤ 9007199254740992
+  · simp [nearestDoubleNat, hle, hn]
+  · have hk := log2_ge_53 n hle
+    have hn0 : n ≠ 0 := by omega
+    have hp := (Nat.le_log2 hn0 (k := Nat.log2 n)).mp (Nat.le_refl _)
+    have hsplit : 2 ^ Nat.log2 n = 2 ^ (Nat.log2 n - 52) * 2 ^ 52 := by
+      rw [← Nat.pow_add]; congr 1; omega
+    rw [hsplit] at hp
+    have h52 : (2:Nat) ^ 52 = 4503599627370496 := by decide
+    rw [h52] at hp
+    generalize 2 ^ (Nat.log2 n - 52) = d at *
+    omega
+
+theorem nearestDouble_close (i : Int) :
+    2 * (nearestDouble i - i).natAbs ≤ 2 ^ (Nat.log2 i.natAbs - 52) ∧
+    (0 < i → 0 < nearestDouble i) ∧ (i < 0 → nearestDouble i < 0) := by
+  cases i with
+  | ofNat n =>
+    have ⟨h1, h2⟩ := nearestDoubleNat_close n
+    have hp := nearestDoubleNat_pos n
+    simp only [nearestDouble, Int.ofNat_eq_natCast, Int.natAbs_natCast]
+    generalize 2 ^ (Nat.log2 n - 52) = d at *
+    generalize nearestDoubleNat n = m at *
+    omega
+  | negSucc n =>
+    have ⟨h1, h2⟩ := nearestDoubleNat_close (n + 1)
+    have hp := nearestDoubleNat_pos (n + 1) (by omega)
+    have hab : (Int.negSucc n).natAbs = n + 1 := rfl
+    rw [hab]
+    simp only [nearestDouble, Int.ofNat_eq_natCast, Int.negSucc_eq]
+    generalize 2 ^ (Nat.log2 (n + 1) - 52) = d at *
+    generalize nearestDoubleNat (n + 1) = m at *
+    omega
+
 theorem idDemand_nil (o : Obj) (h : membersLoose o t!"id" = []) : idDemand (some (.obj o)) = .null := by
   simp [idDemand, h]
 theorem idDemand_single (o : Obj) (k : Text) (v : Json) (h : membersLoose o t!"id" = [(k, v)]) :
-    idDemand (some (.obj o)) = if k = t!"id" ∧ wfId v = true then .exact v else .any := by
+    idDemand (some (.obj o)) = if k = t!"id" then idTarget v else .any := by
   simp [idDemand, h]
 theorem idDemand_many (o : Obj) (a b : Text × Json) (rest : Obj) (h : membersLoose o t!"id" = a :: b :: rest) :
     idDemand (some (.obj o)) = .any := by
@@ -488,7 +571,8 @@ theorem idDemand_many (o : Obj) (a b : Text × Json) (rest : Obj) (h : membersLo
 
 theorem two53_lt_overflow : 9007199254740992 < f64Overflow := by decide +kernel
 
-/-- the id a server echoes (`null` for a nil id) satisfies the demand the request's id member(s) create -/
+/-- the id a server echoes (`null` for a nil id) satisfies the demand the request's id member(s) create: a string comes
+    back as it is, an integer as the double nearest to it, a decimal as it is -/
 theorem id_ok (o : Obj) (oid : Option Json) (h : anyField o t!"id" = some oid) :
     idOk (idDemand (some (.obj o))) (oid.getD .null) = true := by
   rw [anyField, fieldVals_id] at h
@@ -502,19 +586,21 @@ theorem id_ok (o : Obj) (oid : Option Json) (h : anyField o t!"id" = some oid) :
     | cons b rest' => rw [idDemand_many o _ _ _ hm]; rfl
     | nil =>
       rw [idDemand_single o k v hm]
-      by_cases hk : k = t!"id" ∧ wfId v = true
-      · simp only [hk, and_self, if_true]
-        obtain ⟨hk, hw⟩ := hk
-        subst hk
+      by_cases hk : k = t!"id"
+      · simp only [hk, if_true]
         rw [hm] at h
         simp only [List.map_cons, List.map_nil, anyFieldAux] at h
         cases v with
-        | str s => simp [goDecode] at h; subst h; simp [idOk, idEq]
+        | str s => simp [goDecode] at h; subst h; simp [idTarget, idOk, idEq]
         | int i =>
-          have hi : i.natAbs ≤ two53 := by simpa [wfId, two53] using hw
-          have hlt : i.natAbs < f64Overflow := Nat.lt_of_le_of_lt hi two53_lt_overflow
-          simp [goDecode, hlt, f64RoundInt_exact i hi] at h; subst h; simp [idOk, idEq]
-        | _ => simp [wfId] at hw
+          by_cases hlt : i.natAbs < f64Overflow
+          · simp [goDecode, hlt] at h; subst h; simp [idTarget, idOk, idEq, nearestDouble_eq]
+          · simp [goDecode, hlt] at h
+        | dec m e =>
+          by_cases hlt : m.natAbs < f64Overflow * 10 ^ e
+          · simp [goDecode, hlt] at h; subst h; simp [idTarget, idOk, idEq]
+          · simp [goDecode, hlt] at h
+        | _ => simp [idTarget, idOk]
       · simp only [hk, if_false]; rfl
 
 theorem requestMethod_single (o : Obj) (k m : Text) (h : membersLoose o t!"method" = [(k, .str m)]) :
